@@ -126,3 +126,6 @@ func (v V) Items() []V { return v.l }
 
 // Big returns the integer of a numeric value (nil otherwise).
 func (v V) Big() *big.Int { return v.z }
+
+// Str returns the string of a string value.
+func (v V) Str() string { return v.s }
